@@ -16,7 +16,7 @@ type descriptor (any store is reported with pc -> file:line and address -> symbo
 image is also compared byte by byte with a snapshot), and (b) runs the same battery from
 N threads released by a barrier before any use of a type, under ThreadSanitizer, each
 thread's log compared with its solo run."""
-import sys, os, re
+import sys, os, re, time
 sys.path.insert(0, os.path.join(os.path.dirname(os.path.abspath(__file__)), "..", "lib"))
 sys.path.insert(0, os.path.join(os.path.dirname(os.path.abspath(__file__)), "..", "harness"))
 from vlib import *
@@ -75,7 +75,9 @@ def dynamic_part(run, tier, scr):
             if tier not in tiers:
                 continue
             want_cov = (tier == "thorough" and tag in U.COV_VARIANTS)
+            t0 = time.time()
             v = U.build_variant(asn1c, skel, root, tag, opts, xc, mods, skip_rx, cov=want_cov)
+            t_build = time.time() - t0
             types = U.list_types(v)
             shapes[tag] = U.shape_sides(v)
             run.count("dyn:programs(objects in image)", v["nfiles"])
@@ -86,7 +88,9 @@ def dynamic_part(run, tier, scr):
             info = {"options": v["opts"], "types": len(types),
                     "types_without_value_source": [t["name"] for t in types if t["nofill"] and not t["seeds"] and not t["notpdu"]]}
             # (a) read-only image
+            t0 = time.time()
             ro = U.run_ro(v, run.seed, 4 if tier == "quick" else 12)
+            info["wall_s"] = {"build": round(t_build, 1), "ro": round(time.time() - t0, 1)}
             m = re.search(r"ops=(\d+)", ro["summary"])
             run.count("dyn:ro:ops", int(m.group(1)) if m else 0)
             info["ro"] = {"summary": ro["summary"], "segments": ro["segments"], "selftest": ro["selftest"], "crashes_recovered": ro["crashes"][:10],
@@ -148,6 +152,7 @@ def dynamic_part(run, tier, scr):
             # (b) threads behind a barrier, ThreadSanitizer
             rounds = [(run.seed, 4, 2)] if tier == "quick" else [(run.seed + k, 2 + 2 * (k % 4), 3) for k in range(4)]
             info["thr"] = []
+            t0 = time.time()
             for (sd, nthr, iters) in rounds:
                 verdict, summ, report = U.run_thr(v, sd, nthr, iters)
                 if verdict == "crash":
@@ -173,6 +178,7 @@ def dynamic_part(run, tier, scr):
                                    "thr": summ, "tsan_report": report, "asn1c_options": v["opts"],
                                    "replay_cmd": "<variant>/th/c19drv thr %d %d %d (TSAN_OPTIONS=suppressions=harness/c19_tsan.supp)" % (sd, nthr, iters)})
                     break
+            info["wall_s"]["thr"] = round(time.time() - t0, 1)
             dyn["variants"][tag] = info
         dyn["unreached_functions_all_variants"] = sorted(unreached or [])
         run.count("dyn:functions-never-entered", len(unreached or []))
